@@ -33,7 +33,8 @@ def xr_case(draw, nmin=1):
     return {"g": g, "k": k, "vdims": draw(gen.vdims_strategy(k)), "seed": draw(st.integers(0, 2**31)),
             # a vector field whose components carry no labels at all (vdims=[])
             "unlabelled": k > 1 and mix % 5 == 0,
-            "dtype": draw(st.sampled_from(["float", "float", "complex", "int"])), "unit": draw(st.sampled_from(gen.FIELD_UNITS)),
+            "dtype": draw(st.sampled_from(["float", "float", "complex", "int", "bool", "float32", "uint8"])),
+            "unit": draw(st.sampled_from(gen.FIELD_UNITS)),
             "remove": draw(st.sampled_from(["none", "none", "cell", "pmin", "pmax", "tolerance_factor", "coord-units", "geometry",
                                             "geometry+tolerance", "units-attr"])),
             "name": draw(st.sampled_from(["field", "m", "mag_1"])),
@@ -48,14 +49,21 @@ def build(case):
     g = case["g"]
     n = tuple(g["n"])
     mesh = gen.build_mesh(g)
-    arr = gen.make_array(case["seed"], (*n, case["k"]), "int", case["dtype"] if case["dtype"] != "int" else "float")
+    arr = gen.make_array(case["seed"], (*n, case["k"]), "int", "complex" if case["dtype"] == "complex" else "float")
     if case.get("nonfinite") and case["dtype"] in ("float", "complex"):
         flat = arr.reshape(-1)
         for j, v in enumerate((float("nan"), float("inf"), float("-inf"), -0.0)):
             flat[(case["seed"] + 7 * j) % flat.size] = v
-    dt = {"float": None, "complex": np.complex128, "int": np.int64}[case["dtype"]]
+    dt = {"float": None, "complex": np.complex128, "int": np.int64, "bool": np.bool_, "float32": np.float32,
+          "uint8": np.uint8}[case["dtype"]]
     if case["dtype"] == "int":
         arr = arr.astype(np.int64)
+    elif case["dtype"] == "bool":
+        arr = arr > 0
+    elif case["dtype"] == "float32":
+        arr = arr.astype(np.float32)
+    elif case["dtype"] == "uint8":
+        arr = (np.abs(arr) * 25).astype(np.uint8)
     kw = {"vdims": list(case["vdims"])} if case["vdims"] else {}
     if case.get("unlabelled"):
         kw = {"vdims": []}
@@ -200,7 +208,18 @@ def check_roundtrip(case):
     if rm in ("cell", "geometry", "geometry+tolerance") and any(k == 1 for k in g["n"]):
         raise Reject()
     xa = reorder_coords(strip(f.to_xarray(), rm), case)
+    attrs_before = {k_: np.array(v_, copy=True) if isinstance(v_, np.ndarray) else v_ for k_, v_ in xa.attrs.items()}
+    coords_before = {k_: np.array(xa[k_].values, copy=True) for k_ in xa.coords}
     back = df.Field.from_xarray(xa)
+    # the import reads the DataArray: it leaves the caller's object (attributes, coordinates, values) as it was
+    if set(xa.attrs) != set(attrs_before) or any(not np.array_equal(np.asarray(xa.attrs[k_]), np.asarray(v_))
+                                                   for k_, v_ in attrs_before.items()):
+        raise Violation("import-modifies-dataarray", f"attributes before {sorted(attrs_before)}, after {sorted(xa.attrs)}")
+    require(all(np.array_equal(xa[k_].values, v_) for k_, v_ in coords_before.items()), "import-modifies-coordinates")
+    if rm != "none":
+        # ... so that an import of the same DataArray again, or of a slice of it, is not influenced by the first import
+        again = df.Field.from_xarray(xa)
+        require(again.mesh == back.mesh and np.array_equal(again.array, back.array, equal_nan=True), "second-import-differs")
     require(back.nvdim == f.nvdim, "import-nvdim")
     require(np.array_equal(back.mesh.n, mesh.n), "import-n", f"{back.mesh.n} vs {mesh.n}")
     require(tuple(back.mesh.region.dims) == tuple(mesh.region.dims), "import-dims")
